@@ -1,0 +1,26 @@
+//go:build verif
+
+package status
+
+// Contracts checked by /verif (contract-based deductive verification).
+// This file is comment-only; it is compiled only with -tags=verif.
+
+//@ import codes "google.golang.org/grpc/codes"
+
+//@ func (*Status).Code
+//@   prop C10
+//@   inline
+//@   nopanic
+//@   ensures implies(s == nil || s.s == nil, result == codes.OK)
+//@   ensures implies(s != nil && s.s != nil, result == codes.Code(s.s.Code))
+
+//@ func (*Status).Err
+//@   prop C10 C24
+//@   nopanic
+//@   ensures iff(result == nil, s.Code() == codes.OK)
+//@   ensures implies(result != nil, typeis[*Error](result))
+
+//@ func IsRestrictedControlPlaneCode
+//@   prop C10 C24
+//@   nopanic
+//@   ensures result == (s.Code() == codes.InvalidArgument || s.Code() == codes.NotFound || s.Code() == codes.AlreadyExists || s.Code() == codes.FailedPrecondition || s.Code() == codes.Aborted || s.Code() == codes.OutOfRange || s.Code() == codes.DataLoss)
